@@ -5,6 +5,7 @@ in a success/data return (except the documented end-of-file mappings); R12.3 the
 site and no library function closes a caller's FILE; R12.4 failure returns leave a consistent typestate (K5, with C03);
 R12.5 the byte count committed to the sync layer is the positive count the read callback returned."""
 import cfg
+import os
 import k2
 import k3
 import k9
@@ -300,7 +301,148 @@ def r12_7(chk, P):
     return n
 
 
+def _failing_returns(F):
+    isptr = F.d.get('ret_t', '').endswith('*')
+    out = []
+    for r in cfg.returns(F):
+        c = F.ex[r].get('c', [])
+        if not c:
+            continue
+        v = F.ex[F.strip_casts(c[0])]
+        if v['k'] == 'un' and v['op'] == '-' and F.ex[F.strip_casts(v['c'][0])]['k'] == 'int':
+            out.append(r)
+        elif v['k'] == 'int' and ((isptr and v['v'] == 0) or (not isptr and v['v'] != 0)):
+            out.append(r)
+    return out
+
+
+def _gate_reset_by_callers(P, F, rec, fld, depth=0):
+    """F is a file-local helper that can return failure with the gate field set: every caller resets the field (stores
+    NULL into record.field) on the way from the call to any of its own failing returns, the edge on which the helper
+    reported success excepted"""
+    sites = [(G, cc) for G in P.functions() for cc in G.calls(F.name) if P.get(F.name, G) is F]
+    if not F.static or not sites:
+        return False, 'the function is not a file-local helper'
+    for G, cc in sites:
+        fails = set(_failing_returns(G))
+
+        def resets(q, G=G):
+            x = G.ex[q]
+            if x['k'] == 'assign' and x['op'] == '=' and common.is_zero(G, x['c'][1]):
+                l = G.ex[G.strip_casts(x['c'][0])]
+                return l['k'] == 'member' and l.get('record') == rec and l.get('field') == fld
+            return False
+
+        def edge_ok(bb, si, G=G, cc=cc):
+            t = G.blocks[bb].get('term')
+            if t and t.get('cond') is not None and len(G.blocks[bb]['succs']) == 2:
+                c = G.strip_casts(t['cond'])
+                pol = True
+                while G.ex[c]['k'] == 'un' and G.ex[c]['op'] == '!':
+                    c = G.strip_casts(G.ex[c]['c'][0])
+                    pol = not pol
+                if c == cc:
+                    # result non-zero: the edge taken when the condition is `pol`
+                    return si == (0 if pol else 1)
+            return True
+        if cfg.search(G, G.pos[cc], lambda q: q in fails, resets, edge_ok) is not None:
+            return False, f'{G.name} can return failure after the call without resetting the field'
+    return True, f'reset by each of the {len(sites)} callers on the failure path'
+
+
+def r12_8(chk, P):
+    chk.rule('R12.8', 'a lazy-initialisation gate is not left set by a failed initialisation: where a function stores a fresh '
+             'allocation into a pointer field under the test that the field is NULL and builds the object afterwards '
+             '(`if(!ci->fullbooks){ ci->fullbooks=calloc(..); for(..) if(init(..)) goto abort; }`, or the early-return form '
+             '`if(ci->fullbooks)return 0; ci->fullbooks=calloc(..); ...`), every path from the store to a failing return of '
+             'the function that does not first complete the guarded region stores NULL into the field -- or the function is a '
+             'file-local helper and each caller does so on its failure path: the next call must not find the gate set over a '
+             'half-built object')
+    n = 0
+    for F in P.functions():
+        if F.entry is None or not F.file.startswith(os.path.join(common.REPO, 'lib')):
+            continue
+        fails = set(_failing_returns(F))
+        if not fails:
+            continue
+        dom = cfg.dominators(F)
+        for b, blk in sorted(F.blocks.items()):
+            t = blk.get('term')
+            if not t or t.get('cond') is None or len(blk['succs']) != 2 or t.get('kind') in ('for', 'while', 'do'):
+                continue
+            c = F.strip_casts(t['cond'])
+            pol = True
+            nd = F.ex[c]
+            while nd['k'] == 'un' and nd['op'] == '!':
+                c = F.strip_casts(nd['c'][0])
+                nd = F.ex[c]
+                pol = not pol
+            if nd['k'] == 'bin' and nd['op'] in ('==', '!=') and common.is_zero(F, nd['c'][1]):
+                pol = pol if nd['op'] == '!=' else not pol
+                c = F.strip_casts(nd['c'][0])
+                nd = F.ex[c]
+            if nd['k'] not in ('member', 'sub') or not str(nd.get('t', '')).rstrip().endswith('*'):
+                continue
+            root = nd
+            while root['k'] == 'sub':
+                root = F.ex[F.strip_casts(root['c'][0])]
+            if root['k'] != 'member' or 'record' not in root:
+                continue
+            # the edge taken when the field is NULL, and the other one
+            null_succ = blk['succs'][1] if pol else blk['succs'][0]
+            set_succ = blk['succs'][0] if pol else blk['succs'][1]
+            if null_succ is None or set_succ is None:
+                continue
+            gate_txt = F.s(c)
+            for e in sorted(F.pos):
+                x = F.ex[e]
+                if not (x['k'] == 'assign' and x['op'] == '=' and F.s(F.strip_casts(x['c'][0])) == gate_txt):
+                    continue
+                r = F.ex[F.strip_casts(x['c'][1])]
+                if not (r['k'] == 'call' and r['callee'].get('d') in ('malloc', 'calloc', 'realloc')):
+                    continue
+                eb = F.pos[e][0]
+                # reached only with the field NULL: through the NULL edge, and not through the other one
+                if not (null_succ in dom.get(eb, ()) and all(p_ == b for p_ in F.preds[null_succ])) and \
+                        not (b in dom.get(eb, ()) and not _block_reaches(F, set_succ, eb)):
+                    continue
+                # where the guarded region, once completed, continues (form A); in form B the other edge leaves the function
+                cont = set_succ if _block_reaches(F, eb, set_succ) else None
+
+                def resets(q):
+                    y = F.ex[q]
+                    return y['k'] == 'assign' and y['op'] == '=' and F.s(F.strip_casts(y['c'][0])) == gate_txt and \
+                        common.is_zero(F, y['c'][1])
+                path = cfg.search(F, F.pos[e], lambda q: q in fails, resets,
+                                  (lambda bb, si: F.blocks[bb]['succs'][si] != cont) if cont is not None else None)
+                ok, how = path is None, 'every failing return that follows an unfinished initialisation is preceded by the reset'
+                if not ok:
+                    ok, how2 = _gate_reset_by_callers(P, F, root['record'], root['field'])
+                    how = how2 if ok else (f'{gate_txt} keeps the fresh allocation on a path that leaves the initialisation '
+                                           f'unfinished and returns failure ({how2}): the next call finds the gate set and skips '
+                                           'the initialisation')
+                n += 1
+                chk.ob('R12.8', F.name, f'gate:{F.s(c, names=False)}#{n}', ok, F.where(e), how,
+                       path=cfg.block_lines(F, path) if (path and not ok) else None)
+    return n
+
+
+def _block_reaches(F, a, b):
+    seen, st = set(), [a]
+    while st:
+        x = st.pop()
+        if x == b:
+            return True
+        if x in seen:
+            continue
+        seen.add(x)
+        st += [s_ for s_ in F.blocks[x]['succs'] if s_ is not None]
+    return False
+
+
 def run(chk, P):
+    r12_8(chk, P)
+    chk.floor('R12.8', 2)
     E, C = io_sets(P)
     chk.notes.append(f'I/O-capable functions: {len(E)}; of those error-carrying: {len(C)}; not error-carrying: {sorted(E - C)}')
     r12_1(chk, P, E, C)
